@@ -29,7 +29,7 @@ def lq(rng, n):
     if r < 0.7:
         return {"kind": "frac", "f": rng.choice([0.0, 1.0])}
     if r < 0.75:
-        return {"kind": "abs", "l": rng.choice([-1e-9, -1.0, 1e9])}
+        return {"kind": "abs", "l": rng.choice([-1e-9, -1.0, 1e9, -0.0, -0.0])}      # negative zero is zero: the start of the curve
     return {"kind": "frac", "f": rng.random()}
 
 
@@ -163,6 +163,9 @@ def piece_oracle(name, piece, src, l0, l1, p0, p1, tol, what):
 def oracle(c, r):
     k = c["k"]
     if r.get("err"):
+        return
+    if r.get("panic") and "src" not in r:
+        yield ("portion-panic", "portioning a curve of %d points (tol %r, %s) at %r / %r / control %r panicked" % (len(c["pts"]), c["tol"], "closed" if c["closed"] else "open", c.get("l0"), c.get("l1"), c.get("control")))
         return
     if k == "c04.portion":
         src = r["src"]
